@@ -39,6 +39,20 @@ def run (s : Sexp) : String :=
       let sols := List.range n
       both (showRun (Quant.run c sols)) (showRun (Quant.spec c sols))
     | _, _ => "error=bad-case"
+  | .list (.atom "hist" :: c :: n :: ks) =>
+    -- `(hist <constraint> n k…)`: one query object evaluated once per `k` (`-1` = to the end), iterators kept alive
+    match parseConstraint c, n.asNat?, ks.mapM Sexp.asInt? with
+    | some c, some n, some ks =>
+      let sols := List.range n
+      let kos : List (Option Nat) := ks.map fun k => if k < 0 then none else some k.toNat
+      let showSeen := fun (r : List Nat × Seen) =>
+        showList (r.1.map toString) ++ " " ++ (match r.2 with
+          | .stillOpen => "open" | .ended .ok => "ok" | .ended (.err e) => errName e)
+      let m := " ; ".intercalate ((history c sols kos).map showSeen)
+      -- specification: each evaluation, alone on a fresh query, consumed the same way
+      let sp := " ; ".intercalate (kos.map fun k => showSeen (consume k (Quant.spec c sols)))
+      both m sp
+    | _, _, _ => "error=bad-case"
   | .list [.atom "the", n] =>
     match n.asNat? with
     | some n => let sols := List.range n; both (showThe (theRun sols)) (showThe (some (theSpec sols)))
